@@ -48,7 +48,7 @@ M = [
  ("C13-createnew-on-cached-ok", "C13", "bucket_registry.go", "\tif mode == CreateNew {\n\t\treturn nil, fs.ErrExist\n\t}\n\tif url != bucket.url {", "\tif mode == CreateNew && !bucket.inMemory {\n\t\treturn nil, fs.ErrExist\n\t}\n\tif url != bucket.url {"),
  ("C14-rearm-only-later", "C14", "expiry_manager.go", "if currentNextExp == 0 || exp < currentNextExp {", "if currentNextExp == 0 || exp > currentNextExp {"),
  ("C14-set-ignores-preserve", "C14", "collection.go", "\t\tif opts != nil && opts.PreserveExpiry {\n\t\t\texp = oldExp\n\t\t}", "\t\tif opts != nil && opts.PreserveExpiry && exp == 0 {\n\t\t\texp = oldExp\n\t\t}", ["C01"]),
- ("C14-no-schedule-on-reopen", "C14", "bucket.go", "\tif vers != 0 {\n\t\tbucket._scheduleExpiration()\n\t}", "\tif vers != 0 && inMemory {\n\t\tbucket._scheduleExpiration()\n\t}"),
+ ("C14-no-schedule-on-reopen", "C14", "bucket.go", "\tif vers != 0 {\n\t\tbucket._scheduleExpiration()\n\t}", "\tif vers != 0 && inMemory {\n\t\tbucket._scheduleExpiration()\n\t}", ["C10"]),
  ("C15-resume-skips-one", "C15", "feeds.go", "\t\t\tstartCas = feed.lastCas + 1", "\t\t\tstartCas = feed.lastCas + 2"),
  ("C15-checkpoint-before-callback", "C15", "feeds.go", "\t\t\tfeed.callback(*event)\n\t\t\tif event.Cas > feed.lastCas {", "\t\t\tif event.Cas > feed.lastCas {\n\t\t\t\tfeed.lastCas = event.Cas\n\t\t\t\tfeed.lastCasChanged = true\n\t\t\t}\n\t\t\tif feed.events.list == nil {\n\t\t\t\tbreak\n\t\t\t}\n\t\t\tfeed.callback(*event)\n\t\t\tif event.Cas > feed.lastCas {"),
  ("C16-drop-leaves-feeds", "C16", "bucket_api.go", "\tfor _, feed := range bucket.collectionFeeds[name] {\n\t\tfeed.close()\n\t}\n\tdelete(bucket.collectionFeeds, name)\n\tdelete(bucket.collections, name)", "\tif c := bucket.collections[name]; c != nil {\n\t\tfor _, feed := range bucket.collectionFeeds[name] {\n\t\t\tfeed.close()\n\t\t}\n\t}\n\tdelete(bucket.collectionFeeds, name)\n\tdelete(bucket.collections, name)", ["C11"]),
